@@ -769,7 +769,27 @@ def _span(src, lo, hi, k, mask):
     return (a, hi)
 
 
+class LocalToolError(ToolError):
+    def __init__(self, path, msg):
+        ToolError.__init__(self, msg); self.path = path
+
+
 def assemble(repo, spec, rows=None, canary=None, opts=None):
+    """_assemble, restarted with the offending function emitted as external_body when an edit conflict can be pinned on one function"""
+    carried = {}
+    for _ in range(8):
+        try:
+            r = _assemble(repo, spec, rows=rows, canary=canary, opts=opts)
+            r['lost_anchors'].update(carried)
+            return r
+        except LocalToolError as x:
+            if x.path in spec.external: raise ToolError(str(x))
+            spec.external[x.path] = 'AUTO: ' + str(x)[:200]
+            carried[x.path] = str(x)[:300]
+    raise ToolError('too many functions with conflicting edits')
+
+
+def _assemble(repo, spec, rows=None, canary=None, opts=None):
     """Build the Verus crate text. Returns dict(text, units, linemap(list of (mod, srcline)|None), stats, registry)."""
     opts = opts or {}
     srcs = load_sources(repo)
@@ -1072,12 +1092,19 @@ def assemble(repo, spec, rows=None, canary=None, opts=None):
         for idx, a, b in ctx['marks']:
             ed.insert(a, '/*U<%d*/' % idx, prio=-5)
             ed.insert(b, '/*U>*/', prio=5)
-        text, lm = ed.apply()
+        try:
+            text, lm = ed.apply()
+        except ToolError as x:
+            mo = re.search(r'overlapping edits at (\d+)', str(x))
+            owner = next((units[idx].path.split('@')[0] for idx, lo_, hi_ in ctx['marks'] if mo and lo_ <= int(mo.group(1)) < hi_), None) if mo else None
+            if owner: raise LocalToolError(owner, 'conflicting rewrites / overlay insertions inside this function (%s)' % x)
+            raise
         for a, t in ed.dropped:
             # an overlay insertion that fell inside a replaced range would silently vanish: name the function and give up on it
             owner = next((units[idx].path for idx, x, y in ctx['marks'] if x <= a < y), None)
             if not t.startswith('/*U'):
-                raise ToolError('an overlay insertion of %s fell inside a rewritten range and was dropped: %r' % (owner, t.strip()[:80]))
+                if owner: raise LocalToolError(owner.split('@')[0], 'an overlay insertion fell inside a rewritten range and was dropped: %r' % t.strip()[:80])
+                raise ToolError('an overlay insertion fell inside a rewritten range and was dropped: %r' % t.strip()[:80])
         if not text.endswith('\n'):
             text += '\n'; lm.append(None)
         emit('pub mod %s {\n' % mod)
